@@ -155,6 +155,14 @@ def run(run):
                 files["legacy/Legacy%d.java" % pi] = legacy
                 os.makedirs(os.path.join(root, "legacy"), exist_ok=True)
                 open(os.path.join(root, "legacy", "Legacy%d.java" % pi), "wb").write(legacy.encode("latin-1"))
+                # entries named *.java that cannot be read (links to files that are gone): as many as there are
+                # workers and more, in directories that come first and last in the walk, and between the sources
+                nbad = rng.choice([5, 6, 9]) if pi % 2 == 0 else rng.randint(1, 12)
+                for j in range(nbad):
+                    sub = rng.choice(["000_generated", "000_generated", "zzz_stale", "d0", ""])
+                    os.makedirs(os.path.join(root, sub), exist_ok=True)
+                    os.symlink(os.path.join(root, "gone", "Stub%d.java" % j), os.path.join(root, sub, "Stub%d.java" % j))
+                stats["unreadable_entries"] += nbad
                 r = h.call(op="scan", dir=root, graph="p", timeout=300)
                 run.count(("project", pi, len(files)))
                 got_files = collections.Counter(n["file"] for n in r["nodes"])
